@@ -66,7 +66,7 @@ Section PerSignal.
       destruct (Z.eqb_spec k0 sig).
       - subst. inversion HL; subst. rewrite zupdate_absent by assumption.
         rewrite filter_absent by assumption. f_equal.
-        destruct sl as [p a]. cbn. symmetry. apply filter_slot_acts.
+        destruct sl as [p a]. cbn [s_prev s_actions]. symmetry. apply filter_slot_acts.
       - rewrite (IH sl) by assumption. f_equal. symmetry. apply filter_id.
         intros a Ha. apply P_other. apply slot_acts_sig in Ha. cbn in Ha. congruence.
     Qed.
@@ -122,3 +122,611 @@ Proof.
     rewrite (filter_none _ (on_sig sig) (slot_acts (k0, s0))); [reflexivity|].
     intros a Ha. apply OS. apply slot_acts_sig in Ha. cbn in Ha. congruence.
 Qed.
+
+Lemma all_acts_update_snoc : forall sig k t l sl,
+  NoDup (map fst l) -> zlookup sig l = Some sl ->
+  exists L1 L2, flat_map slot_acts l = L1 ++ L2 /\
+    flat_map slot_acts (zupdate sig (mk_slot (s_prev sl) (s_actions sl ++ [(k, t)])) l) = L1 ++ mk_act k sig t :: L2.
+Proof.
+  intros sig k t. induction l as [|[k0 s0] r IH]; intros sl ND HL; [discriminate|].
+  rewrite zupdate_cons. cbn in ND, HL. inversion ND; subst. cbn [flat_map].
+  destruct (Z.eqb_spec k0 sig).
+  - subst. inversion HL; subst. rewrite zupdate_absent by assumption.
+    exists (slot_acts (sig, sl)), (flat_map slot_acts r). split; [reflexivity|].
+    unfold slot_acts at 1. cbn [fst snd s_actions]. rewrite map_app. cbn [map fst snd].
+    rewrite <- app_assoc. reflexivity.
+  - destruct (IH sl H2 HL) as [L1 [L2 [E1 E2]]].
+    exists (slot_acts (k0, s0) ++ L1), L2. rewrite E1, E2, <- !app_assoc. split; reflexivity.
+Qed.
+
+Lemma slot_acts_sorted : forall s sl, ksorted (s_actions sl) -> StronglySorted alt (slot_acts (s, sl)).
+Proof.
+  intros s [p a]. unfold slot_acts. cbn. induction a as [|kv r IH]; intros H; cbn; [constructor|].
+  apply ksorted_inv in H. destruct H as [Hr Hf]. constructor; [auto|].
+  apply Forall_forall. intros x Hx. apply in_map_iff in Hx. destruct Hx as [kv' [E Hk]]. subst.
+  rewrite Forall_forall in Hf. apply (Hf kv' Hk).
+Qed.
+
+Lemma NoDup_snoc : forall A (l : list A) x, NoDup l -> ~ In x l -> NoDup (l ++ [x]).
+Proof.
+  induction l as [|a r IH]; intros x ND H; cbn.
+  - constructor; [intros []|constructor].
+  - inversion ND; subst. constructor.
+    + intros Hin. apply in_app_or in Hin. destruct Hin as [Hin|[E|[]]]; [contradiction|].
+      subst. apply H. left. reflexivity.
+    + apply IH; [assumption|]. intros Hx. apply H. right. assumption.
+Qed.
+
+Lemma os_get_cons : forall k d t s, os_get ((k, d) :: t) s = if k =? s then d else os_get t s.
+Proof. intros. unfold os_get. cbn. destruct (k =? s); reflexivity. Qed.
+
+Lemma os_get_init : forall os0 s, os_get (map (fun e => (fst e, DPre (snd e))) os0) s = DPre (pre_of os0 s).
+Proof.
+  induction os0 as [|[k p] r IH]; intros s; [reflexivity|].
+  cbn [map fst snd]. rewrite os_get_cons. unfold pre_of. cbn. destruct (k =? s); [reflexivity|].
+  apply IH.
+Qed.
+
+Lemma filter_negb_id : forall A (f : A -> bool) l, existsb f l = false -> filter (fun a => negb (f a)) l = l.
+Proof.
+  intros A f l H. apply filter_id. intros a Ha. apply negb_true_iff. apply not_true_is_false. intros E.
+  assert (existsb f l = true) by (apply existsb_exists; eauto). congruence.
+Qed.
+
+Section Refine.
+  Variable query_ok set_ok : Z -> bool.
+  Variable os0 : list (Z * pre_disp).
+
+  Definition accepts (s : Z) : bool := query_ok s && set_ok s.
+  Definition forb (s : Z) : bool := zmem s forbidden.
+  Notation cstep := (c_step query_ok set_ok).
+  Notation crun := (c_run query_ok set_ok).
+  Notation sstep := (s_step id_mod forb accepts (pre_of os0)).
+  Notation srun := (s_run id_mod forb accepts (pre_of os0)).
+
+  Definition dstep (c : cstate) (o : op) : cstate * out :=
+    match o with
+    | Register sig tag | RegisterSigaction sig tag => register_direct query_ok set_ok c sig tag
+    | Unregister sig id => unreg_direct c sig id
+    | UnregisterSignal sig => unsig_direct c sig
+    | Deliver sig => (c, ORan (match os_get (os c) sig with
+                               | DLib _ => handler_direct c sig
+                               | DPre p => pre_out p
+                               end))
+    end.
+
+  Lemma c_step_eq : forall c o, cstep c o = dstep c o.
+  Proof.
+    intros c [sig tag|sig tag|sig id|sig|sig]; cbn [c_step dstep].
+    - apply c_register_eq.
+    - apply c_register_eq.
+    - apply c_unregister_eq.
+    - apply c_unregister_signal_eq.
+    - unfold c_deliver. rewrite run_handler_eq. reflexivity.
+  Qed.
+
+  (** ---- well-formedness: holds in every reachable state, wrap or not ------------------------ *)
+  Record WF (c : cstate) : Prop := {
+    wf_nodup : NoDup (map fst (signals (data c)));
+    wf_slot : forall s sl, zlookup s (signals (data c)) = Some sl ->
+                ksorted (s_actions sl) /\ s_prev sl = mk_prev s (DPre (pre_of os0 s)) /\
+                os_get (os c) s = DLib sa_flags;
+    wf_free : forall s, zlookup s (signals (data c)) = None -> os_get (os c) s = DPre (pre_of os0 s) }.
+
+  Lemma wf_init : WF (c_init os0).
+  Proof.
+    constructor; cbn.
+    - constructor.
+    - discriminate.
+    - intros s _. apply os_get_init.
+  Qed.
+
+  Lemma wf_update : forall c sig sl a' nx fb,
+    WF c -> zlookup sig (signals (data c)) = Some sl -> ksorted a' ->
+    WF (mk_cstate (mk_sigdata (zupdate sig (mk_slot (s_prev sl) a') (signals (data c))) nx) (os c) fb).
+  Proof.
+    intros c sig sl a' nx fb [ND SL FR] HL KS. constructor; cbn.
+    - rewrite map_fst_zupdate. assumption.
+    - intros s sl2. rewrite zlookup_update. destruct (Z.eqb_spec s sig).
+      + subst. rewrite HL. intros E. inversion E; subst. cbn.
+        destruct (SL sig sl HL) as [_ [Hp Ho]]. auto.
+      + apply SL.
+    - intros s. rewrite zlookup_update. destruct (Z.eqb_spec s sig).
+      + subst. rewrite HL. discriminate.
+      + apply FR.
+  Qed.
+
+  Lemma wf_same : forall c fb, WF c -> WF (mk_cstate (data c) (os c) fb).
+  Proof. intros c fb [ND SL FR]. constructor; assumption. Qed.
+
+  Lemma wf_step : forall c o, WF c -> WF (fst (dstep c o)).
+  Proof.
+    intros c o W. destruct o as [sig tag|sig tag|sig id|sig|sig]; cbn [dstep]; try assumption.
+    1,2: unfold register_direct; destruct (zmem sig forbidden); [assumption|]; unfold reg_direct;
+      destruct (zlookup sig (signals (data c))) as [sl|] eqn:HL;
+      [ destruct (is_some _); [assumption|]; cbn [fst]; apply wf_update; [assumption..|];
+        apply bt_insert_sorted; apply (wf_slot c W sig sl HL)
+      | destruct (query_ok sig); [|assumption]; destruct (set_ok sig); cbn [fst]; [|apply wf_same; assumption];
+        destruct W as [ND SL FR]; constructor; cbn;
+        [ rewrite map_app; apply NoDup_snoc; [assumption|apply zlookup_none_iff; assumption]
+        | intros s sl2; rewrite zlookup_app_new, os_get_cons;
+          destruct (zlookup s (signals (data c))) as [x|] eqn:HS;
+          [ intros E; inversion E; subst; destruct (Z.eqb_spec sig s); [subst; congruence|apply SL; assumption]
+          | destruct (Z.eqb_spec sig s); [|discriminate]; intros E; inversion E; subst; cbn;
+            rewrite (FR s HS); repeat split; constructor; constructor ]
+        | intros s; rewrite zlookup_app_new, os_get_cons;
+          destruct (zlookup s (signals (data c))) as [x|] eqn:HS; [discriminate|];
+          destruct (Z.eqb_spec sig s); [discriminate|]; intros _; apply FR; assumption ] ].
+    - unfold unreg_direct. destruct (zlookup sig (signals (data c))) as [sl|] eqn:HL; [|assumption].
+      destruct (is_some _); [|assumption]. cbn [fst]. apply wf_update; [assumption..|].
+      rewrite bt_remove_filter by apply (wf_slot c W sig sl HL). apply ksorted_filter. apply (wf_slot c W sig sl HL).
+    - unfold unsig_direct. destruct (zlookup sig (signals (data c))) as [sl|] eqn:HL; [|assumption].
+      destruct (s_actions sl); [assumption|]. cbn [fst]. apply wf_update; [assumption..|]. constructor.
+  Qed.
+
+  (** ---- the invariant of the refinement: the counter has not wrapped -------------------------- *)
+  (** [n] is the unbounded count "initial_next_id + successful registrations so far" *)
+  Record Inv (n : N) (c : cstate) : Prop := {
+    inv_wf : WF c;
+    inv_ids : forall a, In a (all_acts c) -> (a_id a < n)%N;
+    inv_next : next_id (data c) = (n mod id_mod)%N;
+    inv_bound : (n <= id_mod)%N }.
+
+  Lemma id_mod_pos : (0 < id_mod)%N.
+  Proof. reflexivity. Qed.
+
+  Lemma inv_init : Inv initial_next_id (c_init os0).
+  Proof.
+    constructor.
+    - apply wf_init.
+    - intros a [].
+    - reflexivity.
+    - discriminate.
+  Qed.
+
+  Lemma slot_keys_below : forall n c sig sl, Inv n c -> zlookup sig (signals (data c)) = Some sl ->
+    Forall (fun kv => (fst kv < n)%N) (s_actions sl).
+  Proof.
+    intros n c sig sl I HL. apply Forall_forall. intros [k t] Hk. cbn.
+    apply (inv_ids n c I (mk_act k sig t)). unfold all_acts. apply in_flat_map.
+    exists (sig, sl). split; [apply zlookup_some_in; assumption|].
+    unfold slot_acts. cbn. apply in_map_iff. exists (k, t). split; [reflexivity|assumption].
+  Qed.
+
+  Lemma abs_same_data : forall c fb, abs (mk_cstate (data c) (os c) fb) = abs c.
+  Proof. reflexivity. Qed.
+
+  Lemma hit_other : forall sig id a, a_sig a <> sig -> hit sig id a = false.
+  Proof. intros. unfold hit. rewrite (proj2 (Z.eqb_neq _ _)) by assumption. reflexivity. Qed.
+  Lemma on_sig_other : forall sig a, a_sig a <> sig -> on_sig sig a = false.
+  Proof. intros. unfold on_sig. apply Z.eqb_neq. assumption. Qed.
+
+  Definition grow (x : out) : N := successes [x].
+
+  Lemma inv_same : forall n c fb, Inv n c -> Inv n (mk_cstate (data c) (os c) fb).
+  Proof. intros n c fb [W A B C]. constructor; try assumption. apply wf_same. assumption. Qed.
+
+  Lemma all_acts_snoc : forall l sig p k t,
+    flat_map slot_acts (l ++ [(sig, mk_slot p [(k, t)])]) = flat_map slot_acts l ++ [mk_act k sig t].
+  Proof. intros. rewrite flat_map_app. reflexivity. Qed.
+
+  Lemma sort_snoc_max : forall l x, Forall (fun a => (a_id a < a_id x)%N) l -> sort_acts (l ++ [x]) = sort_acts l ++ [x].
+  Proof.
+    intros l x H. rewrite (sort_insert_max x l []) by (auto; constructor). rewrite app_nil_r. reflexivity.
+  Qed.
+
+  Lemma step_refines : forall n c o,
+    Inv n c -> (n + grow (snd (sstep (abs c) o)) <= id_mod)%N ->
+    snd (dstep c o) = snd (sstep (abs c) o) /\
+    abs (fst (dstep c o)) = fst (sstep (abs c) o) /\
+    Inv (n + grow (snd (sstep (abs c) o))) (fst (dstep c o)).
+  Proof.
+    intros n c o I G. pose proof (inv_wf n c I) as W. pose proof (wf_step c o W) as W'.
+    assert (same : Inv (n + 0) c) by (rewrite N.add_0_r; exact I).
+    destruct o as [sig tag|sig tag|sig id|sig|sig]; cbn [dstep s_step] in *.
+    1,2: unfold register_direct, s_register in *; fold (forb sig) in *;
+      destruct (forb sig); [cbn; auto|];
+      cbn [taken next acts abs] in *; rewrite zmem_map_fst in *; unfold reg_direct in *;
+      destruct (zlookup sig (signals (data c))) as [sl|] eqn:HL; cbn [is_some] in *.
+    1,3: cbn [snd fst grow successes] in G |- *;
+      assert (LT : (n < id_mod)%N) by lia;
+      assert (NX : next_id (data c) = n) by (rewrite (inv_next n c I); apply N.mod_small; exact LT);
+      rewrite NX in *;
+      rewrite (bt_insert_max n tag (s_actions sl)) by (eapply slot_keys_below; eassumption);
+      cbn [snd fst is_some];
+      destruct (all_acts_update_snoc sig n tag (signals (data c)) sl (wf_nodup c W) HL) as [L1 [L2 [E1 E2]]];
+      assert (B : forall a, In a (L1 ++ L2) -> (a_id a < n)%N) by (intros a Ha; apply (inv_ids n c I); unfold all_acts; rewrite E1; exact Ha);
+      split; [reflexivity|]; split;
+      [ unfold abs; cbn [data signals next_id]; unfold all_acts; cbn [data signals];
+        rewrite map_fst_zupdate, E2, E1;
+        rewrite sort_insert_max by (apply Forall_forall; intros a Ha; apply B; apply in_or_app; auto);
+        reflexivity
+      | constructor;
+        [ apply (wf_update c sig sl _ _ _ W HL); pose proof (bt_insert_sorted n tag (s_actions sl) (proj1 (wf_slot c W sig sl HL))) as K; rewrite (bt_insert_max n tag (s_actions sl) (slot_keys_below n c sig sl I HL)) in K; exact K
+        | unfold all_acts; cbn [data signals]; rewrite E2; intros a Ha; apply in_app_or in Ha;
+          destruct Ha as [Ha|[Ha|Ha]]; [ specialize (B a (in_or_app _ _ _ (or_introl Ha))); lia | subst; cbn; lia | specialize (B a (in_or_app _ _ _ (or_intror Ha))); lia ]
+        | cbn [data next_id]; f_equal; lia
+        | lia ] ].
+    (* first registration of a signal: Vacant arm *)
+    1,2: unfold accepts in *; destruct (query_ok sig); [destruct (set_ok sig)|];
+      cbn [andb fst snd grow successes] in *;
+      [ | split; [reflexivity|]; split; [reflexivity|]; apply inv_same; exact same
+        | split; [reflexivity|]; split; [reflexivity|]; exact same ];
+      assert (LT : (n < id_mod)%N) by lia;
+      assert (NX : next_id (data c) = n) by (rewrite (inv_next n c I); apply N.mod_small; exact LT);
+      rewrite NX in *;
+      assert (B : Forall (fun a => (a_id a < a_id (mk_act n sig tag))%N) (all_acts c))
+        by (apply Forall_forall; intros a Ha; apply (inv_ids n c I a Ha));
+      split; [reflexivity|]; split;
+      [ unfold abs; cbn [data signals next_id]; unfold all_acts in *; cbn [data signals];
+        rewrite all_acts_snoc, map_app, sort_snoc_max by exact B; reflexivity
+      | constructor;
+        [ exact W'
+        | unfold all_acts in *; cbn [data signals]; rewrite all_acts_snoc; intros a Ha; apply in_app_or in Ha;
+          destruct Ha as [Ha|[Ha|[]]]; [ apply (inv_ids n c I) in Ha; lia | subst; cbn; lia ]
+        | cbn [data next_id]; f_equal; lia
+        | lia ] ].
+    - (* unregister *)
+      unfold unreg_direct, s_unregister in *. cbn [fst snd grow successes abs acts taken next] in *.
+      assert (FP : forall kv : N * Z, (fst kv =? id)%N = hit sig id (mk_act (fst kv) sig (snd kv)))
+        by (intros kv; unfold hit; cbn; rewrite Z.eqb_refl; reflexivity).
+      assert (EXS : existsb (hit sig id) (sort_acts (all_acts c)) =
+                    match zlookup sig (signals (data c)) with
+                    | Some sl => existsb (fun kv => (fst kv =? id)%N) (s_actions sl) | None => false end).
+      { rewrite existsb_sort. unfold all_acts.
+        apply (existsb_all sig (hit sig id) _ FP (hit_other sig id)). apply (wf_nodup c W). }
+      rewrite EXS.
+      destruct (zlookup sig (signals (data c))) as [sl|] eqn:HL.
+      + rewrite bt_remove_found in *. destruct (existsb _ (s_actions sl)) eqn:EX; cbn [fst snd] in *.
+        * split; [reflexivity|].
+          assert (AA : all_acts (mk_cstate (mk_sigdata (zupdate sig (mk_slot (s_prev sl) (fst (bt_remove id (s_actions sl)))) (signals (data c)))
+                                   (next_id (data c))) (os c) (fallback c)) =
+                       filter (fun a => negb (hit sig id a)) (all_acts c)).
+          { unfold all_acts. cbn [data signals]. rewrite bt_remove_filter by apply (wf_slot c W sig sl HL).
+            apply (all_acts_update_filter sig (fun a => negb (hit sig id a)) (fun kv => negb (fst kv =? id)%N)).
+            - intros kv. rewrite FP. reflexivity.
+            - intros a Ha. rewrite hit_other by assumption. reflexivity.
+            - apply (wf_nodup c W).
+            - exact HL. }
+          split.
+          -- unfold abs. rewrite AA. cbn [data signals next_id]. rewrite map_fst_zupdate, filter_sort. reflexivity.
+          -- rewrite N.add_0_r. constructor; [exact W'| |apply (inv_next n c I)|apply (inv_bound n c I)].
+             rewrite AA. intros a Ha. apply filter_In in Ha. apply (inv_ids n c I). tauto.
+        * split; [reflexivity|]. split; [|exact same].
+          unfold abs. f_equal. symmetry. apply filter_negb_id. exact EXS.
+      + cbn [fst snd]. split; [reflexivity|]. split; [|exact same].
+        unfold abs. f_equal. symmetry. apply filter_negb_id. exact EXS.
+    - (* unregister_signal *)
+      unfold unsig_direct, s_unregister_signal in *. cbn [fst snd grow successes abs acts taken next] in *.
+      assert (FP : forall kv : N * Z, true = on_sig sig (mk_act (fst kv) sig (snd kv)))
+        by (intros kv; unfold on_sig; cbn; rewrite Z.eqb_refl; reflexivity).
+      assert (EXS : existsb (on_sig sig) (sort_acts (all_acts c)) =
+                    match zlookup sig (signals (data c)) with
+                    | Some sl => existsb (fun _ => true) (s_actions sl) | None => false end).
+      { rewrite existsb_sort. unfold all_acts.
+        apply (existsb_all sig (on_sig sig) _ FP (on_sig_other sig)). apply (wf_nodup c W). }
+      rewrite EXS.
+      destruct (zlookup sig (signals (data c))) as [sl|] eqn:HL.
+      + destruct (s_actions sl) as [|kv0 rest] eqn:EA; cbn [existsb orb fst snd] in *.
+        * split; [reflexivity|]. split; [|exact same].
+          unfold abs. f_equal. symmetry. apply filter_negb_id. exact EXS.
+        * split; [reflexivity|].
+          assert (AA : all_acts (mk_cstate (mk_sigdata (zupdate sig (mk_slot (s_prev sl) []) (signals (data c)))
+                                   (next_id (data c))) (os c) (fallback c)) =
+                       filter (fun a => negb (on_sig sig a)) (all_acts c)).
+          { unfold all_acts. cbn [data signals].
+            replace (@nil (N * Z)) with (filter (fun _ : N * Z => false) (s_actions sl))
+              by (clear; induction (s_actions sl); [reflexivity|assumption]).
+            apply (all_acts_update_filter sig (fun a => negb (on_sig sig a)) (fun _ => false)).
+            - intros kv. rewrite <- FP. reflexivity.
+            - intros a Ha. rewrite on_sig_other by assumption. reflexivity.
+            - apply (wf_nodup c W).
+            - exact HL. }
+          split.
+          -- unfold abs. rewrite AA. cbn [data signals next_id]. rewrite map_fst_zupdate, filter_sort. reflexivity.
+          -- rewrite N.add_0_r. constructor; [exact W'| |apply (inv_next n c I)|apply (inv_bound n c I)].
+             rewrite AA. intros a Ha. apply filter_In in Ha. apply (inv_ids n c I). tauto.
+      + cbn [fst snd]. split; [reflexivity|]. split; [|exact same].
+        unfold abs. f_equal. symmetry. apply filter_negb_id. exact EXS.
+    - (* deliver *)
+      unfold s_deliver. cbn [fst snd grow successes abs acts taken next] in *.
+      split; [|split; [reflexivity|exact same]].
+      rewrite filter_sort. unfold all_acts. rewrite filter_onsig_all by apply (wf_nodup c W).
+      unfold handler_direct. destruct (zlookup sig (signals (data c))) as [sl|] eqn:HL.
+      + destruct (wf_slot c W sig sl HL) as [KS [PV OS]]. rewrite OS, PV.
+        rewrite sort_already by (apply slot_acts_sorted; exact KS).
+        unfold prev_out. cbn [p_info]. f_equal. f_equal.
+        unfold slot_acts. cbn [fst snd]. rewrite map_map. reflexivity.
+      + rewrite (wf_free c W sig HL). cbn. rewrite app_nil_r. reflexivity.
+  Qed.
+End Refine.
+
+(** ---- whole histories ---------------------------------------------------------------------- *)
+Lemma successes_cons : forall x l, successes (x :: l) = (successes [x] + successes l)%N.
+Proof. intros x l. destruct x; cbn; lia. Qed.
+
+Lemma successes_length : forall l, successes l = N.of_nat (length (ids_of l)).
+Proof.
+  induction l as [|x r IH]; [reflexivity|]. destruct x; cbn [successes ids_of length]; try assumption.
+  rewrite IH. lia.
+Qed.
+
+Section Runs.
+  Variable query_ok set_ok : Z -> bool.
+  Variable os0 : list (Z * pre_disp).
+  Notation cstep := (c_step query_ok set_ok).
+  Notation crun := (c_run query_ok set_ok).
+  Notation dstep := (dstep query_ok set_ok).
+  Notation sstep := (s_step id_mod forb (accepts query_ok set_ok) (pre_of os0)).
+  Notation srun := (s_run id_mod forb (accepts query_ok set_ok) (pre_of os0)).
+
+  Lemma c_run_cons : forall c o r,
+    crun c (o :: r) = (fst (crun (fst (dstep c o)) r), snd (dstep c o) :: snd (crun (fst (dstep c o)) r)).
+  Proof.
+    intros. cbn [c_run]. rewrite c_step_eq. destruct (dstep c o) as [c1 x]. cbn [fst snd].
+    destruct (crun c1 r). reflexivity.
+  Qed.
+
+  Lemma s_run_cons : forall s o r,
+    srun s (o :: r) = (fst (srun (fst (sstep s o)) r), snd (sstep s o) :: snd (srun (fst (sstep s o)) r)).
+  Proof.
+    intros. cbn [s_run]. destruct (sstep s o) as [s1 x]. cbn [fst snd]. destruct (srun s1 r). reflexivity.
+  Qed.
+
+  Lemma c_run_app : forall l1 l2 c, fst (crun c (l1 ++ l2)) = fst (crun (fst (crun c l1)) l2).
+  Proof.
+    induction l1 as [|o r IH]; intros l2 c; [reflexivity|].
+    cbn [app]. rewrite !c_run_cons. cbn [fst]. apply IH.
+  Qed.
+
+  Lemma c_run_app_out : forall l1 l2 c,
+    snd (crun c (l1 ++ l2)) = snd (crun c l1) ++ snd (crun (fst (crun c l1)) l2).
+  Proof.
+    induction l1 as [|o r IH]; intros l2 c; [reflexivity|].
+    cbn [app]. rewrite !c_run_cons. cbn [fst snd app]. f_equal. apply IH.
+  Qed.
+
+  Lemma run_refines : forall ops n c,
+    Inv os0 n c -> (n + successes (snd (srun (abs c) ops)) <= id_mod)%N ->
+    snd (crun c ops) = snd (srun (abs c) ops) /\ abs (fst (crun c ops)) = fst (srun (abs c) ops).
+  Proof.
+    induction ops as [|o r IH]; intros n c I G; [split; reflexivity|].
+    rewrite c_run_cons, s_run_cons in *. cbn [fst snd] in *. rewrite successes_cons in G.
+    destruct (step_refines query_ok set_ok os0 n c o I) as [E1 [E2 I']].
+    { unfold grow. lia. }
+    rewrite <- E2 in *. rewrite <- E1 in *.
+    destruct (IH _ _ I') as [F1 F2]; [unfold grow; lia|].
+    rewrite F1, F2. split; reflexivity.
+  Qed.
+
+  Theorem refines : forall ops,
+    let spec := srun (s_init initial_next_id) ops in
+    let impl := crun (c_init os0) ops in
+    (successes (snd spec) < 2 ^ 128)%N ->
+    snd impl = snd spec /\ abs (fst impl) = fst spec.
+  Proof.
+    intros ops spec impl G. apply (run_refines ops initial_next_id (c_init os0)).
+    - apply inv_init.
+    - change (abs (c_init os0)) with (s_init initial_next_id). fold spec.
+      rewrite src_id_mod, src_initial_next_id, N.add_1_l. apply N.le_succ_l. exact G.
+  Qed.
+
+  (** ---- well-formedness of every reachable state (no guard) -------------------------------- *)
+  Lemma wf_run : forall ops c, WF os0 c -> WF os0 (fst (crun c ops)).
+  Proof.
+    induction ops as [|o r IH]; intros c W; [exact W|].
+    rewrite c_run_cons. cbn [fst]. apply IH. apply wf_step. exact W.
+  Qed.
+
+  Lemma wf_reachable : forall ops, WF os0 (fst (crun (c_init os0) ops)).
+  Proof. intros. apply wf_run. apply wf_init. Qed.
+
+  (** ---- ids ------------------------------------------------------------------------------------ *)
+  Lemma step_next : forall c o,
+    match snd (dstep c o) with
+    | OId i => i = next_id (data c) /\ next_id (data (fst (dstep c o))) = ((next_id (data c) + 1) mod id_mod)%N
+    | _ => next_id (data (fst (dstep c o))) = next_id (data c)
+    end.
+  Proof.
+    intros c o. destruct o as [sig tag|sig tag|sig id|sig|sig]; cbn [dstep].
+    1,2: unfold register_direct; destruct (zmem sig forbidden); [reflexivity|]; unfold reg_direct;
+      destruct (zlookup sig (signals (data c))) as [sl|];
+      [ destruct (is_some _); cbn; auto
+      | destruct (query_ok sig); [destruct (set_ok sig)|]; cbn; auto ].
+    - unfold unreg_direct. destruct (zlookup sig (signals (data c))) as [sl|]; [|reflexivity].
+      destruct (is_some _); reflexivity.
+    - unfold unsig_direct. destruct (zlookup sig (signals (data c))) as [sl|]; [|reflexivity].
+      destruct (s_actions sl); reflexivity.
+    - reflexivity.
+  Qed.
+
+  Fixpoint ids_seq (start : N) (count : nat) : list N :=
+    match count with
+    | O => []
+    | S m => (start mod id_mod)%N :: ids_seq (start + 1)%N m
+    end.
+
+  Lemma run_ids : forall ops c n, next_id (data c) = (n mod id_mod)%N ->
+    ids_of (snd (crun c ops)) = ids_seq n (length (ids_of (snd (crun c ops)))).
+  Proof.
+    induction ops as [|o r IH]; intros c n H; [reflexivity|].
+    rewrite c_run_cons. cbn [snd]. pose proof (step_next c o) as S.
+    destruct (snd (dstep c o)) eqn:E; cbn [ids_of]; try (apply IH; rewrite S; exact H).
+    destruct S as [S1 S2]. cbn [length ids_seq]. f_equal; [rewrite S1; exact H|].
+    apply IH. rewrite S2, H. apply N.add_mod_idemp_l. discriminate.
+  Qed.
+
+  Lemma mod_shift_neq : forall M n d, (0 < d)%N -> (d < M)%N -> (n mod M <> (n + d) mod M)%N.
+  Proof.
+    intros M n d D0 DM E. assert (M0 : M <> 0%N) by lia.
+    rewrite <- (N.add_mod_idemp_l n d M M0) in E.
+    pose proof (N.mod_upper_bound n M M0) as R. remember (n mod M)%N as r. clear Heqr.
+    destruct (N.lt_ge_cases (r + d) M) as [L|L].
+    - rewrite (N.mod_small _ _ L) in E. lia.
+    - assert (X : (r + d - M = (r + d) mod M)%N).
+      { apply (N.mod_unique (r + d) M 1); lia. }
+      lia.
+  Qed.
+
+  Lemma ids_seq_in : forall m s x, In x (ids_seq s m) ->
+    exists j, (j < m)%nat /\ x = ((s + N.of_nat j) mod id_mod)%N.
+  Proof.
+    induction m as [|m IH]; intros s x H; [destruct H|].
+    cbn in H. destruct H as [H|H].
+    - exists 0%nat. split; [lia|]. rewrite N.add_0_r. auto.
+    - destruct (IH _ _ H) as [j [J E]]. exists (S j). split; [lia|].
+      rewrite E. f_equal. lia.
+  Qed.
+
+  Lemma ids_seq_nodup : forall m s, (N.of_nat m <= id_mod)%N -> NoDup (ids_seq s m).
+  Proof.
+    induction m as [|m IH]; intros s B; [constructor|].
+    cbn [ids_seq]. constructor; [|apply IH; lia].
+    intros H. apply ids_seq_in in H. destruct H as [j [J E]].
+    rewrite <- N.add_assoc in E. revert E. apply mod_shift_neq; lia.
+  Qed.
+
+  Theorem ids_unique : forall ops,
+    let outs := snd (crun (c_init os0) ops) in
+    (successes outs <= 2 ^ 128)%N -> NoDup (ids_of outs).
+  Proof.
+    intros ops outs G. unfold outs in *.
+    rewrite (run_ids ops (c_init os0) initial_next_id) by reflexivity.
+    apply ids_seq_nodup. rewrite <- successes_length, src_id_mod. exact G.
+  Qed.
+
+  (** ---- unregister is exact ---------------------------------------------------------------- *)
+  Lemma filter_true : forall A (l : list A), filter (fun _ => true) l = l.
+  Proof. induction l; cbn; congruence. Qed.
+
+  Theorem unregister_exact : forall ops sig id,
+    let c := fst (crun (c_init os0) ops) in
+    let r := cstep c (Unregister sig id) in
+    snd r = OBool (existsb (fun a => (fst a =? id)%N) (c_actions c sig)) /\
+    (forall s, c_actions (fst r) s =
+               filter (fun a => negb ((s =? sig) && (fst a =? id)%N)) (c_actions c s)) /\
+    c_taken (fst r) = c_taken c /\ next_id (data (fst r)) = next_id (data c) /\ os (fst r) = os c.
+  Proof.
+    intros ops sig id c r. pose proof (wf_reachable ops) as W. fold c in W.
+    unfold r. rewrite c_step_eq. cbn [dstep]. unfold unreg_direct, c_actions, c_taken.
+    assert (OTHER : forall s l, s <> sig -> filter (fun a : N * Z => negb ((s =? sig) && (fst a =? id)%N)) l = l).
+    { intros s l H. rewrite (proj2 (Z.eqb_neq s sig) H). apply filter_true. }
+    destruct (zlookup sig (signals (data c))) as [sl|] eqn:HL.
+    - rewrite bt_remove_found. destruct (existsb _ (s_actions sl)) eqn:EX; cbn [fst snd data signals next_id os].
+      + split; [reflexivity|]. split; [|split; [apply map_fst_zupdate|split; reflexivity]].
+        intros s. rewrite zlookup_update. destruct (Z.eq_dec s sig) as [->|NE].
+        * rewrite HL. cbn [s_actions]. rewrite Z.eqb_refl. cbn [andb].
+          apply bt_remove_filter. apply (wf_slot os0 c W sig sl HL).
+        * rewrite OTHER by assumption. rewrite (proj2 (Z.eqb_neq s sig) NE). reflexivity.
+      + split; [reflexivity|]. split; [|repeat split].
+        intros s. destruct (Z.eq_dec s sig) as [->|NE].
+        * rewrite HL, Z.eqb_refl. cbn [andb]. symmetry. apply filter_negb_id. exact EX.
+        * rewrite OTHER by assumption. reflexivity.
+    - cbn [fst snd existsb]. split; [reflexivity|]. split; [|repeat split].
+      intros s. destruct (Z.eq_dec s sig) as [->|NE].
+      + rewrite HL. reflexivity.
+      + rewrite OTHER by assumption. reflexivity.
+  Qed.
+
+  (** ---- independence of signals ----------------------------------------------------------- *)
+  Lemma actions_other : forall c o s2, op_sig o <> s2 ->
+    c_actions (fst (dstep c o)) s2 = c_actions c s2 /\ os_get (os (fst (dstep c o))) s2 = os_get (os c) s2.
+  Proof.
+    intros c o s2 NE. unfold c_actions.
+    destruct o as [sig tag|sig tag|sig id|sig|sig]; cbn [dstep op_sig] in *.
+    1,2: unfold register_direct; destruct (zmem sig forbidden); [split; reflexivity|]; unfold reg_direct;
+      destruct (zlookup sig (signals (data c))) as [sl|];
+      [ destruct (is_some _); cbn [fst data signals os]; [split; reflexivity|];
+        rewrite zlookup_update, (proj2 (Z.eqb_neq s2 sig)) by congruence; split; reflexivity
+      | destruct (query_ok sig); [destruct (set_ok sig)|]; cbn [fst data signals os]; try (split; reflexivity);
+        rewrite zlookup_app_new, os_get_cons, (proj2 (Z.eqb_neq sig s2) NE);
+        destruct (zlookup s2 (signals (data c))); split; reflexivity ].
+    - unfold unreg_direct. destruct (zlookup sig (signals (data c))) as [sl|]; [|split; reflexivity].
+      destruct (is_some _); cbn [fst data signals os]; [|split; reflexivity].
+      rewrite zlookup_update, (proj2 (Z.eqb_neq s2 sig)) by congruence. split; reflexivity.
+    - unfold unsig_direct. destruct (zlookup sig (signals (data c))) as [sl|]; [|split; reflexivity].
+      destruct (s_actions sl); cbn [fst data signals os]; [split; reflexivity|].
+      rewrite zlookup_update, (proj2 (Z.eqb_neq s2 sig)) by congruence. split; reflexivity.
+    - split; reflexivity.
+  Qed.
+
+  Lemma deliver_wf : forall c s, WF os0 c ->
+    snd (dstep c (Deliver s)) = ORan (pre_out (pre_of os0 s) ++ map snd (c_actions c s)).
+  Proof.
+    intros c s W. cbn [dstep snd]. unfold handler_direct, c_actions.
+    destruct (zlookup s (signals (data c))) as [sl|] eqn:HL.
+    - destruct (wf_slot os0 c W s sl HL) as [_ [PV OS]]. rewrite OS, PV. reflexivity.
+    - rewrite (wf_free os0 c W s HL). cbn. rewrite app_nil_r. reflexivity.
+  Qed.
+
+  Theorem independent : forall ops o s2,
+    op_sig o <> s2 ->
+    let c := fst (crun (c_init os0) ops) in
+    let c' := fst (cstep c o) in
+    c_actions c' s2 = c_actions c s2 /\
+    os_get (os c') s2 = os_get (os c) s2 /\
+    snd (cstep c' (Deliver s2)) = snd (cstep c (Deliver s2)).
+  Proof.
+    intros ops o s2 NE c c'. pose proof (wf_reachable ops) as W. fold c in W.
+    unfold c'. rewrite !c_step_eq. destruct (actions_other c o s2 NE) as [A B].
+    split; [exact A|]. split; [exact B|].
+    rewrite !deliver_wf by (try apply wf_step; exact W). rewrite A. reflexivity.
+  Qed.
+
+  (** ---- the disposition is sticky ----------------------------------------------------------- *)
+  Lemma slot_persists : forall c o s,
+    is_some (zlookup s (signals (data c))) = true ->
+    is_some (zlookup s (signals (data (fst (dstep c o))))) = true.
+  Proof.
+    intros c o s H.
+    assert (UPD : forall k (v : slot), is_some (zlookup s (zupdate k v (signals (data c)))) = true).
+    { intros k v. rewrite zlookup_update. destruct (zlookup s (signals (data c))); [|discriminate].
+      destruct (s =? k); reflexivity. }
+    destruct o as [sig tag|sig tag|sig id|sig|sig]; cbn [dstep].
+    1,2: unfold register_direct; destruct (zmem sig forbidden); [exact H|]; unfold reg_direct;
+      destruct (zlookup sig (signals (data c))) as [sl|];
+      [ destruct (is_some (snd _)); cbn [fst data signals]; [exact H|apply UPD]
+      | destruct (query_ok sig); [destruct (set_ok sig)|]; cbn [fst data signals]; try exact H;
+        rewrite zlookup_app_new; destruct (zlookup s (signals (data c))); [reflexivity|discriminate] ].
+    - unfold unreg_direct. destruct (zlookup sig (signals (data c))) as [sl|]; [|exact H].
+      destruct (is_some (snd _)); cbn [fst data signals]; [apply UPD|exact H].
+    - unfold unsig_direct. destruct (zlookup sig (signals (data c))) as [sl|]; [|exact H].
+      destruct (s_actions sl); cbn [fst data signals]; [exact H|apply UPD].
+    - exact H.
+  Qed.
+
+  Lemma slot_persists_run : forall ops c s,
+    is_some (zlookup s (signals (data c))) = true ->
+    is_some (zlookup s (signals (data (fst (crun c ops))))) = true.
+  Proof.
+    induction ops as [|o r IH]; intros c s H; [exact H|].
+    rewrite c_run_cons. cbn [fst]. apply IH. apply slot_persists. exact H.
+  Qed.
+
+  Lemma success_takes : forall c o i, snd (dstep c o) = OId i ->
+    is_some (zlookup (op_sig o) (signals (data (fst (dstep c o))))) = true.
+  Proof.
+    intros c o i. destruct o as [sig tag|sig tag|sig id|sig|sig]; cbn [dstep op_sig].
+    1,2: unfold register_direct; destruct (zmem sig forbidden); [discriminate|]; unfold reg_direct;
+      destruct (zlookup sig (signals (data c))) as [sl|] eqn:HL;
+      [ destruct (is_some (snd _)); [discriminate|]; intros _; cbn [fst data signals];
+        rewrite zlookup_update, Z.eqb_refl, HL; reflexivity
+      | destruct (query_ok sig); [destruct (set_ok sig)|]; try discriminate; intros _; cbn [fst data signals];
+        rewrite zlookup_app_new, HL, Z.eqb_refl; reflexivity ].
+    - unfold unreg_direct. destruct (zlookup sig (signals (data c))); [destruct (is_some _)|]; discriminate.
+    - unfold unsig_direct. destruct (zlookup sig (signals (data c))) as [sl|]; [destruct (s_actions sl)|]; discriminate.
+    - discriminate.
+  Qed.
+
+  Theorem disposition_sticky : forall ops1 o ops2 i,
+    snd (cstep (fst (crun (c_init os0) ops1)) o) = OId i ->
+    os_get (os (fst (crun (c_init os0) (ops1 ++ o :: ops2)))) (op_sig o) = DLib (Z.lor SA_RESTART SA_SIGINFO).
+  Proof.
+    intros ops1 o ops2 i H. rewrite c_step_eq in H. apply success_takes in H.
+    rewrite c_run_app, c_run_cons. cbn [fst].
+    apply (slot_persists_run ops2) in H.
+    pose proof (wf_reachable (ops1 ++ o :: ops2)) as W. rewrite c_run_app, c_run_cons in W. cbn [fst] in W.
+    destruct (zlookup (op_sig o) _) as [sl|] eqn:HL; [|discriminate].
+    rewrite <- src_sa_flags. apply (wf_slot os0 _ W _ sl HL).
+  Qed.
+End Runs.
